@@ -106,6 +106,14 @@ def main():
             print("patch does not apply:", err)
             meta["error"] = "patch does not apply: " + err[-300:]
             return 2
+        # a change of a compiled kernel comes with the edited generated source and the rebuilt extension (both untracked in git)
+        for fn, sub in (("estimator.cpp", "variogram"), ("estimator.cpython-312-x86_64-linux-gnu.so", "variogram"),
+                        ("summator.c", "field"), ("summator.cpython-312-x86_64-linux-gnu.so", "field"),
+                        ("krigesum.c", "krige"), ("krigesum.cpython-312-x86_64-linux-gnu.so", "krige")):
+            extra = os.path.join(a.outdir, fn)
+            if os.path.exists(extra):
+                shutil.copy(extra, f"{wt}/src/gstools/{sub}/{fn}")
+                meta.setdefault("extra_files", []).append(fn)
         if a.recheck:
             return recheck(a, wt)
         rc, out, err = sh(["/venv/bin/python", "-m", "pytest", "-q", "-p", "no:cacheprovider", "--timeout=900", "-n", "8", "tests"], cwd=wt, env=env)
@@ -121,7 +129,7 @@ def main():
         run_checks(a, wt, meta)
         dst = os.path.join(VERIF, "seeded", a.seed_id)
         os.makedirs(dst, exist_ok=True)
-        for fn in ("patch.diff", "demo.py", "notes.md"):
+        for fn in ("patch.diff", "demo.py", "notes.md", "estimator.cpp", "estimator.cpython-312-x86_64-linux-gnu.so", "estimator_cpp.diff"):
             p = os.path.join(a.outdir, fn)
             if os.path.exists(p):
                 shutil.copy(p, dst)
